@@ -36,6 +36,14 @@ CONSTANTS MInst, Creators, PreC, RecsPer, Registrars, PreG, UnregG, MeterOf,
           Invokers,    \* processes that invoke a registered callback as an SDK may: overlapping, own Observer each
           CbOf,        \* invoker -> registrar whose callback it invokes
           SharedObs,   \* shape switch (deviation): ONE unwrapping Observer per callback instead of one per invocation
+          IdOf,        \* owner -> identity of its instrument <<name, kind, unit, description>> (documented: identical
+                       \* identity -> the same instrument; any difference -> distinct instruments)
+          KeyFields,   \* shape switch: the fields (subset of 1..4) the placeholder cache is keyed by; the code: all four
+          SdkObs,      \* registrars whose observable comes straight from SDK r1: only the callback goes through the
+                       \* global meter (a placeholder meter with callbacks but no placeholder instruments)
+          PreMeter,    \* owners whose Meter was obtained before anything runs, the instrument only later (a placeholder
+                       \* meter that may be empty when it is handed over)
+          SkipEmpty,   \* shape switch (deviation): meter.setDelegate returns early when it has no placeholder instruments
           Shape,       \* Meter() / Tracer() on the default provider: "atomic" (the code: one critical section) |
                        \* "split" (check, unlocked config computation, insert WITHOUT re-check: deviation) | "recheck"
           Patched, AllowKnown
@@ -58,19 +66,25 @@ RECURSIVE SeqOf(_)
 SeqOf(Z) == IF Z = {} THEN <<>> ELSE LET x == CHOOSE y \in Z : TRUE IN <<x>> \o SeqOf(Z \ {x})
 Without(s, g) == SelectSeq(s, LAMBDA y : y # g)
 
+SameKey(x, y) == MeterOf[x] = MeterOf[y] /\ \A f \in KeyFields : IdOf[x][f] = IdOf[y][f]
+PreOwn == (PreC \cup PreG) \ SdkObs                               \* placeholder instruments created beforehand
+Canon(x) == CHOOSE y \in {z \in PreOwn : SameKey(z, x)} : TRUE     \* the placeholder of x's cache key
+Collapsed(x, y) == IF IdOf[x] # IdOf[y] THEN {"placeholder-identity-collapsed"} ELSE {}
+
 (* "none" = no delegate / no handle; "global" = the default (delegating) object; "r1"/"r2" = a real SDK *)
 Init ==
   /\ M = [gmp |-> "global", once |-> "free", pmtx |-> "none", pdel |-> "none",
-          meters |-> {MeterOf[x] : x \in PreC \cup PreG},
+          meters |-> {MeterOf[x] : x \in PreC \cup PreG \cup PreMeter},
           mmtx |-> [m \in Meters |-> "none"], mdel |-> [m \in Meters |-> "none"],
-          minst |-> [m \in Meters |-> {x \in PreC \cup PreG : MeterOf[x] = m}],
+          minst |-> [m \in Meters |-> {Canon(x) : x \in {y \in PreOwn : MeterOf[y] = m}}],
+          rep |-> [x \in Owners |-> IF x \in PreOwn THEN Canon(x) ELSE "none"],   \* whose placeholder x was handed
           idel |-> [x \in Owners |-> "none"],
           registry |-> [m \in Meters |-> SeqOf({g \in PreG : MeterOf[g] = m})],
           unreg |-> [g \in Registrars |-> IF g \in PreG THEN "pre" ELSE "none"],
           umu |-> [g \in Registrars |-> "none"], utmp |-> [g \in Registrars |-> "none"],
           todo |-> {}, cur |-> "none", tried |-> {},
-          handle |-> [x \in Owners |-> IF x \in PreC \cup PreG THEN "global" ELSE "none"],
-          ikind |-> [x \in Owners |-> IF x \in PreC \cup PreG THEN "global" ELSE "none"],
+          handle |-> [x \in Owners |-> IF x \in PreC \cup PreG \cup PreMeter THEN "global" ELSE "none"],
+          ikind |-> [x \in Owners |-> IF x \in PreOwn THEN "global" ELSE IF x \in PreG THEN "sdkobs" ELSE "none"],
           rkind |-> [g \in Registrars |-> IF g \in PreG THEN "global" ELSE "none"]]
   /\ T = [gtp |-> "global", once |-> "free", mtx |-> "none", pdel |-> "none",
           tracers |-> {TracerOf[u] : u \in PreT}, tdel |-> [t \in Tracers |-> "none"], todo |-> {},
@@ -83,6 +97,7 @@ Init ==
              IF p \in Insts THEN (IF Len(Script[p]) = 0 THEN "done" ELSE "idle")
              ELSE IF p \in PreC THEN "rec"
              ELSE IF p \in PreG THEN (IF p \in UnregG THEN "registered" ELSE "done")
+             ELSE IF p \in PreMeter THEN "inst"
              ELSE IF p \in PreT THEN "start"
              ELSE IF p \in XU THEN "use" ELSE "idle"]
   /\ cnt = [p \in Procs |-> 0]
@@ -90,7 +105,8 @@ Init ==
             first |-> [k \in Kinds |-> "none"],     \* the real provider of the first such Set that began delegating
             after |-> [p \in Procs |-> FALSE],
             sdkReg |-> [g \in Registrars |-> 0], sdkAct |-> [g \in Registrars |-> 0],
-            regRet |-> PreG, unregCalled |-> {}, unregRet |-> {}, bad |-> {}]
+            regRet |-> PreG, unregCalled |-> {}, unregRet |-> {},
+            bad |-> UNION {Collapsed(x, Canon(x)) : x \in PreOwn}]
 
 Go(p, l) == pc' = [pc EXCEPT ![p] = l]
 SdkRegister(mn, g) ==
@@ -128,7 +144,7 @@ SRet(i) == /\ pc[i] = "ret"
 (* ------------------------------------------------ SetMeterProvider (state.go:155, meter.go:37,126,596) *)
 Pending == IF M.cur = "none" THEN {} ELSE {x \in M.minst[M.cur] : x \notin M.tried}
 (* the delegate refuses g's callback: scripted for g, or a consequence of g's own instrument having been refused *)
-Refused(g) == g \in RefuseReg \cup RefuseInst
+Refused(g) == g \in RefuseReg \cup RefuseInst \/ (g \in SdkObs /\ M.pdel = "r2")   \* (r2 refuses r1's observable)
 (* sync.Once: the first caller runs the body; the body delegates only if `current` is the default provider *)
 IOnce(i) == /\ pc[i] = "once"
             /\ IF M.once = "free"
@@ -151,7 +167,8 @@ IDelegateMeter(i) == /\ pc[i] = "mdeleg" /\ M' = [M EXCEPT !.mdel[M.cur] = M.pde
 IInst(i, x) == /\ pc[i] = "walk" /\ x \in Pending
                /\ M' = [M EXCEPT !.tried = @ \cup {x}, !.idel[x] = IF x \in RefuseInst THEN @ ELSE M.pdel]
                /\ UNCHANGED <<T, X, S, V, pc, cnt, mon>>
-IRegLock(i) == /\ pc[i] = "walk" /\ Pending = {} /\ M.registry[M.cur] # <<>>
+Skip == SkipEmpty /\ M.cur # "none" /\ M.minst[M.cur] = {}     \* deviation: "nothing to re-create" although callbacks wait
+IRegLock(i) == /\ pc[i] = "walk" /\ Pending = {} /\ M.registry[M.cur] # <<>> /\ ~Skip
                /\ LET g == Head(M.registry[M.cur]) IN
                   /\ M.umu[g] = "none" /\ M' = [M EXCEPT !.umu[g] = i]
                /\ Go(i, "reg") /\ UNCHANGED <<T, X, S, V, cnt, mon>>
@@ -163,7 +180,7 @@ IReg(i) == /\ pc[i] = "reg"
                 ELSE /\ M' = [M EXCEPT !.umu[g] = "none", !.registry[M.cur] = Tail(@), !.unreg[g] = "sdk"]
                      /\ mon' = SdkRegister(mon, g)
            /\ Go(i, "walk") /\ UNCHANGED <<T, X, S, V, cnt>>
-IMeterUnlock(i) == /\ pc[i] = "walk" /\ Pending = {} /\ M.registry[M.cur] = <<>>
+IMeterUnlock(i) == /\ pc[i] = "walk" /\ Pending = {} /\ (M.registry[M.cur] = <<>> \/ Skip)
                    /\ M' = [M EXCEPT !.mmtx[M.cur] = "none", !.minst[M.cur] = {}, !.todo = @ \ {M.cur}, !.cur = "none"]
                    /\ Go(i, IF M.todo \ {M.cur} = {} THEN "punlock" ELSE "mlock")
                    /\ UNCHANGED <<T, X, S, V, cnt, mon>>
@@ -199,22 +216,30 @@ OMeterInsert(c) == /\ pc[c] = "pminsert" /\ M.pmtx = "none"
    On an orphan meter (Shape = "split") the instrument is a placeholder nobody will ever connect. *)
 OInst(c) == /\ pc[c] = "inst"
             /\ LET m == MeterOf[c]
-                   sdkside == M.handle[c] \in Real \cup {"fwd"} \/ (M.handle[c] = "global" /\ M.mdel[m] # "none") IN
-               /\ M.handle[c] = "global" => M.mmtx[m] = "none"
-               /\ IF sdkside /\ c \in RefuseInst THEN M' = [M EXCEPT !.ikind[c] = "refused"]
+                   sdkside == M.handle[c] \in Real \cup {"fwd"} \/ (M.handle[c] = "global" /\ M.mdel[m] # "none")
+                   same == {x \in M.minst[m] : SameKey(x, c)} IN
+               /\ (M.handle[c] = "global" /\ c \notin SdkObs) => M.mmtx[m] = "none"
+               /\ IF c \in SdkObs THEN M' = [M EXCEPT !.ikind[c] = "sdkobs"]    \* created on SDK r1 itself, no global lock
+                  ELSE IF sdkside /\ c \in RefuseInst THEN M' = [M EXCEPT !.ikind[c] = "refused"]
                   ELSE IF M.handle[c] \in Real THEN M' = [M EXCEPT !.ikind[c] = M.handle[c]]
                   ELSE IF M.handle[c] = "fwd" THEN M' = [M EXCEPT !.ikind[c] = "fwd", !.idel[c] = M.pdel]
                   ELSE IF M.handle[c] = "orphan" THEN M' = [M EXCEPT !.ikind[c] = "orphan"]
                   ELSE M' = IF M.mdel[m] # "none" THEN [M EXCEPT !.ikind[c] = "fwd", !.idel[c] = M.mdel[m]]
-                                                  ELSE [M EXCEPT !.ikind[c] = "global", !.minst[m] = @ \cup {c}]
-               /\ Go(c, IF sdkside /\ c \in RefuseInst THEN "done" ELSE IF c \in Creators THEN "rec" ELSE "register")
-            /\ UNCHANGED <<T, X, S, V, cnt, mon>>
+                            ELSE IF same = {} THEN [M EXCEPT !.ikind[c] = "global", !.minst[m] = @ \cup {c}, !.rep[c] = c]
+                            ELSE [M EXCEPT !.ikind[c] = "global", !.rep[c] = CHOOSE x \in same : TRUE]   \* cached placeholder
+               /\ mon' = IF M.handle[c] = "global" /\ c \notin SdkObs /\ M.mdel[m] = "none" /\ same # {}
+                            /\ ~(sdkside /\ c \in RefuseInst)
+                         THEN [mon EXCEPT !.bad = @ \cup Collapsed(c, CHOOSE x \in same : TRUE)] ELSE mon
+               /\ Go(c, IF c \notin SdkObs /\ sdkside /\ c \in RefuseInst THEN "done" ELSE IF c \in Creators THEN "rec" ELSE "register")
+            /\ UNCHANGED <<T, X, S, V, cnt>>
 (* Add / Record: delegate.Load() then forward or drop (instruments.go:330) *)
 RCall(c) == /\ c \in Creators /\ pc[c] = "rec" /\ Go(c, "load")
             /\ mon' = [mon EXCEPT !.after[c] = mon.setRet["mp"]] /\ UNCHANGED <<M, T, X, S, V, cnt>>
 RLoad(c) == /\ c \in Creators /\ pc[c] = "load"
-            /\ mon' = IF M.ikind[c] \in Real \/ (M.ikind[c] = "global" /\ c \in RefuseInst) THEN mon
-                      ELSE Judge(mon, c, "mp", TRUE, IF M.ikind[c] = "orphan" THEN "none" ELSE M.idel[c], "lost-after-set")
+            /\ mon' = IF M.ikind[c] \in Real \/ (M.ikind[c] = "global" /\ M.rep[c] \in RefuseInst) THEN mon
+                      ELSE Judge(mon, c, "mp", TRUE, IF M.ikind[c] = "orphan" THEN "none"
+                                                     ELSE IF M.ikind[c] = "global" THEN M.idel[M.rep[c]] ELSE M.idel[c],
+                                 "lost-after-set")
             /\ cnt' = [cnt EXCEPT ![c] = @ + 1]
             /\ Go(c, IF cnt[c] + 1 >= RecsPer THEN "done" ELSE "rec") /\ UNCHANGED <<M, T, X, S, V>>
 
@@ -370,10 +395,11 @@ RegisteredAtMostOnce == \A g \in Registrars : mon.sdkReg[g] <= 1
 (* each callback whose RegisterCallback returned and that nobody unregisters is registered with the SDK once
    an installation of a real provider has returned *)
 CallbackConnected == mon.setRet["mp"] =>
-  \A g \in (mon.regRet \ mon.unregCalled) \ (RefuseReg \cup RefuseInst) : mon.sdkReg[g] = 1 /\ mon.sdkAct[g] = 1
+  \A g \in (mon.regRet \ mon.unregCalled) \ (RefuseReg \cup RefuseInst \cup (IF mon.first["mp"] = "r2" THEN SdkObs ELSE {})) :
+     mon.sdkReg[g] = 1 /\ mon.sdkAct[g] = 1
 (* no placeholder instrument / tracer is left without delegate once a real installation returned *)
 (* (a refusal by the delegate affects the refused instrument only) *)
-InstConnected == mon.setRet["mp"] => \A x \in Owners : /\ M.ikind[x] = "global" /\ x \notin RefuseInst => M.idel[x] # "none"
+InstConnected == mon.setRet["mp"] => \A x \in Owners : /\ M.ikind[x] = "global" /\ M.rep[x] \notin RefuseInst => M.idel[M.rep[x]] # "none"
                                                         /\ M.ikind[x] # "orphan" /\ M.handle[x] # "orphan"
 TracerConnected == mon.setRet["tp"] => \A u \in TUsers : /\ T.handle[u] = "global" => T.tdel[TracerOf[u]] # "none"
                                                           /\ T.handle[u] # "orphan"
